@@ -189,6 +189,21 @@ def matrix_task(item):
         mats['serial'] = big[:, :N]
         if not np.array_equal(big[:, N * reps:], mats['default']) or not np.array_equal(big[:, :N], mats['default']):
             out['viols'].append(('inline-vs-serial', {'cfg': cfgname, 'history': h}))
+    # process-pool path (fork-faithful virtual pool, two schedules: one worker; three workers round robin)
+    from mc import vpool
+    ctl = vpool.install()
+    reps = max(1, (100 // (N * N)) + 1) if N * N < 100 else 0
+    trial_list = elems * reps + elems if reps else elems
+    for cpu in (1, 3):
+        ctl.configure(cpu=cpu, assign=None)
+        try:
+            with ctl.window():
+                big = SL.bilform_matrix(elems, trial_list, use_mp=True)
+            mats['pool-cpu{}'.format(cpu)] = big[:, len(trial_list) - N:]
+            if not np.array_equal(big[:, :N], big[:, len(trial_list) - N:]):
+                out['viols'].append(('pool-columns-differ', {'cfg': cfgname, 'history': h, 'cpu': cpu}))
+        except Exception as ex:
+            out['viols'].append(('pool-path-raised', {'cfg': cfgname, 'history': h, 'cpu': cpu, 'exc': repr(ex)[:200]}))
     for name, A in mats.items():
         for i, te in enumerate(elems):
             for j, tr in enumerate(elems):
